@@ -8,7 +8,7 @@ namespace LanceModel.C09
 open LanceModel.Table
 
 inductive Err where
-  | invalidRef | refConflict | refNotFound | versionNotFound | notFound | alreadyExists | invalidInput | other
+  | invalidRef | refConflict | refNotFound | versionNotFound | notFound | targetExists | other
   deriving DecidableEq, Repr
 
 def rootLoc : Loc := { path := ['r'], uri := ['r'], branch := none }
@@ -44,7 +44,9 @@ def createBranch (an : Char → Bool) (s : St) (hd : Dir) (name : Str) (src : Op
   match dirOfName name with
   | none => (s, .error .other)
   | some nd =>
-    if hasDataset s nd then (s, .error .other)
+    -- a dataset that already lives at the target (a live branch or a zombie) makes the Clone commit fail
+    -- (the harness reports every failure in that situation as `target_exists`)
+    if hasDataset s nd then (s, .error .targetExists)
     else match cloneOp s hd nd ver with
       | none => (s, .error .notFound)
       | some s1 =>
